@@ -141,7 +141,7 @@ fn ex16_cases(thorough: bool, isas: &[IsaKind]) -> Vec<Ex16> {
                 continue; // covered by prims-edges
             }
             let unary = op.arity() == 1;
-            let step = if unary || thorough { 1 } else { 32 };
+            let step = if unary || thorough { 1 } else { 16 };
             for view in views_for(ty, op, isas) {
                 for hi in 0..256u32 {
                     v.push(Ex16 { ty, op, hi: hi as u8, step, view });
@@ -380,7 +380,7 @@ fn main() {
          scalar definition (src/prim.rs, from the trait docs: wrapping integer arithmetic, saturating narrow, IEEE float arithmetic with NaN \
          payloads ignored, documented latitude for fused/unfused mul_add only) and lane-wise primitives additionally across ISAs. \
          prims-8bit: i8/u8, all 2^16 operand pairs in every lane position (exhaustive). prims-16bit: all 2^16 first operands in every lane \
-         position (quick: stride 32 for non-unary primitives). prims-edges: all pairs of per-type edge values (NaN/sNaN/+-inf/+-0/ \
+         position (quick: stride 16 for non-unary primitives). prims-edges: all pairs of per-type edge values (NaN/sNaN/+-inf/+-0/ \
          subnormals/rounding and conversion boundaries/integer extremes), rotated through lane positions. prims-random: proptest blocks \
          (edge + uniform values). Non-trivial (primitives) = the sweep/block contains an extreme value of the type (always true for the \
          exhaustive sweeps). bounds: every (ISA, element type, slice operation, length 0..=4*lanes+3, placement flush against the leading or \
@@ -413,7 +413,7 @@ fn main() {
         let cases = edge_cases(thorough, &isas);
         ck.enumerate_par("prims-edges", true, cases.len() as u64, |i| cases[i as usize].clone(), |c| edge_oracle(c, &isas));
     }
-    let n = ck.pick(60_000, 3_000_000);
+    let n = ck.pick(100_000, 4_000_000);
     let isas3 = isas.clone();
     ck.prop("prims-random", n, move || pcase(isas3.clone()), |c| p_oracle(c, &isas));
 
@@ -427,7 +427,7 @@ fn main() {
         ck.enumerate_par("bounds", true, cases.len() as u64, |i| cases[i as usize].clone(), bounds_oracle);
     }
 
-    let n = ck.pick(60_000, 3_000_000);
+    let n = ck.pick(60_000, 4_000_000);
     let isas2 = isas.clone();
     ck.prop("vecmath", n, move || vm_case(isas2.clone()), vm_oracle);
 
